@@ -8,7 +8,6 @@ package props
 import (
 	"bytes"
 	"fmt"
-	"io"
 	"testing"
 
 	"github.com/datastax/go-cassandra-native-protocol/datatype"
@@ -43,20 +42,22 @@ func c01Property(rt *rapid.T) {
 	if err != nil {
 		rt.Fatalf("EncodeFrame failed on a version-valid frame: %v\n%s", err, renderFrame(fc, comp))
 	}
-	src := bytes.NewReader(enc)
-	var rd io.Reader = src
-	if rapid.IntRange(0, 3).Draw(rt, "shortReads") == 0 {
-		rd = &chunkReader{r: src, chunks: drawChunks(rt)}
+	// the bytes are read through one of the reader types callers use, half of the time followed by more bytes of the
+	// stream, which decoding this frame must leave alone
+	var trailing []byte
+	if rapid.Bool().Draw(rt, "trailing") {
+		trailing = []byte{0xde, 0xad, 0xbe, 0xef, 0x00, 0x00, 0x00, 0x01, 0xff}
 	}
+	rd, unread, srcKind := streamSource(rt, append(append([]byte{}, enc...), trailing...), "source")
 	dec, err := codec.DecodeFrame(rd)
 	if (err != nil || diffFrames(fc.Frame, dec) != "") && knownLz4("C01", spy) {
 		return // open finding, excluded by construction and counted
 	}
 	if err != nil {
-		rt.Fatalf("DecodeFrame failed on the encoder's own output: %v%s\n%s", err, lz4Diag(comp, enc), renderFrame(fc, comp))
+		rt.Fatalf("DecodeFrame failed on the encoder's own output (read through a %s, %d bytes following): %v%s\n%s", srcKind, len(trailing), err, lz4Diag(comp, enc), renderFrame(fc, comp))
 	}
-	if src.Len() != 0 {
-		rt.Fatalf("DecodeFrame left %d of %d bytes unread\n%s", src.Len(), len(enc), renderFrame(fc, comp))
+	if unread() != len(trailing) {
+		rt.Fatalf("DecodeFrame left %d bytes of the %s unread; the frame is %d bytes and is followed by %d bytes\n%s", unread(), srcKind, len(enc), len(trailing), renderFrame(fc, comp))
 	}
 	if d := diffFrames(fc.Frame, dec); d != "" {
 		rt.Fatalf("round trip changed the frame: %s%s\n%s", d, lz4Diag(comp, enc), renderFrame(fc, comp))
